@@ -38,13 +38,16 @@ impl<T: ArrivalBound + Clone + 'static> ArrivalBound for Propagated<T> {
 
     fn steps_iter<'a>(&'a self) -> Box<dyn Iterator<Item = Duration> + 'a> {
         Box::new(
-            iter::once(Duration::from(1)).chain(
-                // shift the steps of the input event model earlier by the jitter amount
-                self.input_event_model
-                    .steps_iter()
-                    .filter(move |x| *x > self.response_time_jitter + Duration::from(1))
-                    .map(move |x| x - self.response_time_jitter),
-            ),
+            // the bound steps at delta=1 only if anything arrives at all
+            iter::once(Duration::from(1))
+                .filter(move |delta| self.number_arrivals(*delta) > 0)
+                .chain(
+                    // shift the steps of the input event model earlier by the jitter amount
+                    self.input_event_model
+                        .steps_iter()
+                        .filter(move |x| *x > self.response_time_jitter + Duration::from(1))
+                        .map(move |x| x - self.response_time_jitter),
+                ),
         )
     }
 
